@@ -178,7 +178,6 @@ func C04(c *run.Check) {
 	}
 	selfStr := mustParse([]string{"string(.)", "string()", "string(self::node())", "concat(.,'')", "string-length(.)", ". = string(.)", "number(.)", "boolean(.)"})
 	xr := newXRunner(c, "C04/strval", c01Env)
-	xr.extra = func(dd *adoc.Doc, ctx *adoc.Node, e refExpr, got, want Outcome) string { return "" }
 	xr.runGrid(len(jobs), func(i int) *adoc.Doc { return adoc.Instantiate(jobs[i].f, jobs[i].deco) }, selfStr, nil)
 	// GetCursorString and Result.String() on every node
 	run.ParallelW(len(jobs), func(w, i int) {
